@@ -272,8 +272,8 @@ class TranslatorSMT2(Translator):
             zero_smt2 = bit_vec_val(0, size)
             # (src & 1) != 0
             cond = smt2_distinct(bvand(src, one_smt2), zero_smt2)
-            # ite(cond, 0, src)
-            res= smt2_ite(cond, zero_smt2, src)
+            # Only bit 0 set: size - 1 leading zeros; no bit set: size
+            res= smt2_ite(cond, bit_vec_val(size - 1, size), bit_vec_val(size, size))
             for i in range(size - 1, 0, -1):
                 index = - i % size
                 index_smt2 = bit_vec_val(index, size)
